@@ -132,7 +132,7 @@ static int drv_vtmf(const Opts &o)
 				if (kind < 8) {
 					std::string txt; bool parsed = true;
 					if (kind >= 5) { // corrupted or forged contribution
-						int how = g.below(9);
+						int how = g.below(11);
 						if (how == 0) mpz_add_ui(rr, rr, 1);
 						else if (how == 1) mpz_add_ui(cc2, cc2, 1);
 						else if (how == 2) mpz_add(key, key, v->p);
@@ -143,6 +143,15 @@ static int drv_vtmf(const Opts &o)
 						else if (how == 7) { // forgery attempt: arbitrary element, response with a bit beyond the table, c = H(.., 0)
 							Z e, zero; gen_below(e, g, v->q); mpz_powm(key, v->g, e, v->p); mpz_set_ui(rr, 1); mpz_mul_2exp(rr, rr, mpz_sizeinbase(v->q, 2));
 							tmcg_mpz_shash(cc2, 5, v->p, v->q, v->g, key.v, zero.v); }
+						else if (how >= 9) { // rogue key -g^x (outside the group, order 2q) with a genuine proof whose challenge is even:
+							// g^r (-g^x)^c = g^v holds, only the membership test refuses it (seeded change C08b)
+							Z e, vv, t, prod; gen_below(e, g, v->q); mpz_powm(key, v->g, e, v->p); mpz_sub(key, v->p, key);
+							for (int tries = 0; tries < 64; tries++) {
+								gen_below(vv, g, v->q); mpz_powm(t, v->g, vv, v->p);
+								tmcg_mpz_shash(cc2, 5, v->p, v->q, v->g, key.v, t.v);
+								if (mpz_even_p(cc2)) break;
+							}
+							mpz_mul(prod, cc2, e); mpz_sub(rr, vv, prod); mpz_mod(rr, rr, v->q); }
 						else { Z e, one(1L); gen_below(e, g, v->q); mpz_powm(key, v->g, e, v->p); mpz_set_ui(rr, 0); tmcg_mpz_shash(cc2, 5, v->p, v->q, v->g, key.v, one.v); } // r = 0, c = H(.., 1)
 					}
 					std::ostringstream os; os << key.v << std::endl; if (parsed) os << cc2.v << std::endl << rr.v << std::endl;
